@@ -1,5 +1,6 @@
 import DnpProofs.Lemmas.Consistent2
 import DnpProofs.Lemmas.Store
+import DnpProofs.Lemmas.Hist
 set_option linter.unusedSectionVars false
 /-!
 # C11 — processing history only grows by appending
@@ -120,5 +121,174 @@ theorem example_pipeline :
                  (fun r => match r with | .inl r => .ok r | .inr _ => .error .other)] d).toOption.map (·.hist))
       = some [("fourier_transform", ["dim"]), ("phase", ["p0"]), ("numpy.negative", ["args", "kwargs"]),
               ("numpy.sum", ["axis"])] := by decide +kernel
+
+/-- a step built as "mechanism that keeps the history, then one stamped entry" appends -/
+theorem appends_of_keep {F : Data κ α → Except Err (Data κ α)} {G : Data κ α → Except Err (Data κ α)}
+    (name : String) (keys : List String)
+    (hG : ∀ d r, G d = .ok r → r.hist = d.hist)
+    (hF : ∀ d, F d = (G d).bind (fun r => .ok (r.addHist name keys))) : Appends F name := by
+  intro d d' h
+  rw [hF] at h
+  cases hg : G d with
+  | error e => rw [hg] at h; cases h
+  | ok r =>
+    rw [hg] at h
+    simp only [Except.bind, Except.ok.injEq] at h
+    subst h
+    exact ⟨keys, [], by simp [addHist, hG d r hg]⟩
+
+variable (A : Arith κ α)
+
+/-- "Every processing function …": each processing function of the model, with ANY external numerics plugged in,
+    returns the input's complete history followed by its own entry -/
+theorem model_procs_append (arange : Nat → List κ) (dist : κ → κ → κ) (dim : String) :
+    (∀ valid kind keys w, Appends (fun d : Data κ α => d.apodize A valid dim kind keys w) "window") ∧
+    (∀ cis, Appends (fun d : Data κ α => d.phase A arange dim cis) "phase_correction") ∧
+    (∀ cis, Appends (fun d : Data κ α => d.autophase A arange dim cis) "autophase") ∧
+    (∀ rp ni, Appends (fun d : Data κ α => d.phaseCycle A dim rp ni) "phasecycle") ∧
+    (∀ zff shift ppm tw, Appends (fun d : Data κ α => d.fourierTransform A dim zff shift ppm tw) "fourier_transform") ∧
+    (∀ zff shift ppm tw, Appends (fun d : Data κ α => d.inverseFourierTransform A dim zff shift ppm tw)
+      "inverse_fourier_transform") ∧
+    Appends (fun d : Data κ α => integrateAll A d dim) "integrate" ∧
+    (∀ regions, Appends (fun d : Data κ α => integrateRegions A arange dist d dim regions) "integrate") ∧
+    Appends (fun d : Data κ α => d.cumulativeIntegrate A dim) "cumlative_integrate" ∧
+    (∀ n, Appends (fun d : Data κ α => d.leftShift A dist dim n) "left_shift") ∧
+    (∀ shift, Appends (fun d : Data κ α => d.reference A dim shift) "reference") ∧
+    (∀ od, Appends (fun d : Data κ α => d.normalize A arange od) "normalized") ∧
+    (∀ newc, Appends (fun d : Data κ α => d.interp A arange dim newc) "interp") ∧
+    (∀ mean ax, Appends (fun d : Data κ α => d.average mean ax) "average") ∧
+    Appends (fun d : Data κ α => d.ndalign A arange dim) "ndalign" ∧
+    (∀ idx re, Appends (fun d : Data κ α => d.enhancement A idx re) "calculate_enhancement") := by
+  refine ⟨?_, ?_, ?_, ?_, ?_, ?_, ?_, ?_, ?_, ?_, ?_, ?_, ?_, ?_, ?_, ?_⟩
+  · intro valid kind keys w d d' h
+    simp only [Data.apodize] at h
+    split at h
+    · cases h
+    · split at h
+      · cases h
+      · simp only [bind, Except.bind] at h
+        split at h
+        · cases h
+        · rename_i r hr
+          simp only [Except.ok.injEq] at h; subst h
+          exact ⟨keys, [], by simp [addHist, scaleAlong_hist A.mul w hr]⟩
+  · intro cis
+    exact appends_of_keep (G := fun d => d.bracket arange dim _ (d.ext dim) none) _ _
+      (fun d r h => bracket_hist arange _ _ _ h) (fun d => by simp only [Data.phase, bind]; rfl)
+  · intro cis
+    exact appends_of_keep (G := fun d => d.bracket arange dim _ (d.ext dim) none) _ _
+      (fun d r h => bracket_hist arange _ _ _ h) (fun d => by simp only [Data.autophase, bind]; rfl)
+  · intro rp ni d d' h
+    simp only [Data.phaseCycle] at h
+    split at h
+    · cases h
+    · split at h
+      · cases h
+      · split at h
+        · cases h
+        · simp only [bind, Except.bind] at h
+          split at h
+          · cases h
+          · rename_i r hr
+            simp only [Except.ok.injEq] at h; subst h
+            exact ⟨_, [], by show r.hist ++ [_] = _; rw [scaleAlong_hist A.mul _ hr]⟩
+  · intro zff shift ppm tw d d' h
+    simp only [Data.fourierTransform] at h
+    split at h
+    · cases h
+    · split at h
+      · cases h
+      · split at h
+        · cases h
+        · simp only [Except.ok.injEq] at h; subst h
+          exact ⟨_, [], rfl⟩
+  · intro zff shift ppm tw d d' h
+    simp only [Data.inverseFourierTransform] at h
+    split at h
+    · cases h
+    · split at h
+      · cases h
+      · split at h
+        · cases h
+        · simp only [Except.ok.injEq] at h; subst h
+          exact ⟨_, [], rfl⟩
+  · intro d d' h
+    simp only [integrateAll, bind, Except.bind] at h
+    split at h
+    · cases h
+    · rename_i r hr
+      simp only [Except.ok.injEq] at h; subst h
+      exact ⟨_, [], by show r.hist ++ [_] = _; rw [reduceDim_hist _ hr]⟩
+  · intro regions d d' h
+    simp only [integrateRegions, bind, Except.bind] at h
+    split at h
+    · cases h
+    · split at h
+      · cases h
+      · split at h
+        · cases h
+        · simp only [Except.ok.injEq] at h; subst h
+          exact ⟨_, [], rfl⟩
+  · exact appends_of_keep (G := fun d => d.mapAlong dim _ (d.ext dim) none) _ _
+      (fun d r h => mapAlong_hist _ _ _ h) (fun d => by simp only [Data.cumulativeIntegrate, bind]; rfl)
+  · intro n
+    exact appends_of_keep (G := fun d => d.getitem dist A.klt _) _ _
+      (fun d r h => getitem_hist dist A.klt h) (fun d => by simp only [Data.leftShift, bind]; rfl)
+  · intro shift d d' h
+    simp only [Data.reference] at h
+    split at h
+    · cases h
+    · simp only [Except.ok.injEq] at h; subst h
+      exact ⟨_, [], rfl⟩
+  · intro od d d' h
+    cases od with
+    | none =>
+      simp only [Data.normalize, Except.ok.injEq] at h; subst h
+      exact ⟨_, [], rfl⟩
+    | some dm =>
+      simp only [Data.normalize] at h
+      split at h
+      · cases h
+      · simp only [bind, Except.bind] at h
+        split at h
+        · cases h
+        · rename_i r hr
+          simp only [Except.ok.injEq] at h; subst h
+          exact ⟨_, [], by show r.hist ++ [_] = _; rw [bracket_hist arange _ _ _ hr]⟩
+  · intro newc
+    exact appends_of_keep (G := fun d => d.bracket arange dim _ newc.length (some newc)) _ _
+      (fun d r h => bracket_hist arange _ _ _ h) (fun d => by simp only [Data.interp, bind]; rfl)
+  · intro mean ax d d' h
+    simp only [Data.average] at h
+    split at h
+    · cases h
+    · cases h
+    · simp only [Except.ok.injEq] at h; subst h
+      exact ⟨_, [], rfl⟩
+  · intro d d' h
+    simp only [Data.ndalign] at h
+    split at h
+    · cases h
+    · simp only [bind, Except.bind] at h
+      split at h
+      · cases h
+      · rename_i r hr
+        simp only [Except.ok.injEq] at h; subst h
+        exact ⟨_, [], by show r.hist ++ [_] = _; rw [bracketAll_hist arange _ hr]⟩
+  · intro idx re d d' h
+    simp only [Data.enhancement] at h
+    split at h
+    · cases h
+    · split at h
+      · cases h
+      · split at h
+        · split at h
+          · cases h
+          · simp only [Except.ok.injEq] at h; subst h
+            exact ⟨_, [], rfl⟩
+        · split at h
+          · simp only [Except.ok.injEq] at h; subst h
+            exact ⟨_, [], rfl⟩
+          · cases h
 
 end Dnp.C11
